@@ -203,6 +203,10 @@ _public_ m_thpool_t *m_thpool_new(uint8_t thread_count, m_thpool_flags flags) {
     
     /* Something went wrong; destroy */
     if (err != 0) {
+        if (pool->init_state & INITED_COND) {
+            /* Some workers may have been started already: they must leave the pool before it is destroyed */
+            pool->init_state |= INITED_STARTED;
+        }
         m_thpool_free(&pool, false);
     } else {
         pool->init_state |= INITED_STARTED;
